@@ -127,3 +127,92 @@ def collection_merge_keeps_higher_order_scatter_data(x: float, a1: float, aFirst
     if not refused:
         assert T.fission is not None and eq(T.fission[0], a1)
         assert 1 in T.higherOrderScatter and eq(T.higherOrderScatter[1], x), "the merged collection holds the union of the data"
+
+
+# ----------------------------------------------------------------------------- merging the files of a directory
+DummyNuclideBase = repo("armi.nucDirectory.nuclideBases:DummyNuclideBase")
+
+
+class FileNuc:
+    """nuclide of a library that was read: only `_base` is looked at (is there a dummy nuclide?)"""
+
+
+class FileLib:
+    """a library as returned by isotxs.readBinary (stand-in, see read_contract)"""
+
+
+class FileMeta:
+    pass
+
+
+class TargetLib:
+    """the library the files are merged into: merge(other) is recorded (its content: C10_libmerge.py)"""
+
+    def merge(self, other):
+        self.merged.append(other.path)
+
+
+class GlobStandIn:
+    """stand-in for the module glob: glob(pattern) = the directory listing given by the lemma, each name with the
+    directory in front (what glob.glob(os.path.join(baseDir, 'ISO*')) returns)"""
+
+    listing = []
+
+    @staticmethod
+    def glob(pattern):
+        assert pattern.endswith("/ISO*")
+        return [pattern[:-4] + name for name in GlobStandIn.listing if name.startswith("ISO")]
+
+
+def read_contract(path):
+    """contract assumed for isotxs.readBinary(path): a library read from that file; it remembers the path, carries a
+    neutron velocity that depends on the file only (uninterpreted function of the XS id in the file NAME), and
+    already holds a dummy nuclide (so that no dummy data have to be added and written)"""
+    name = path.split("/")[-1]
+    nuc = new(FileNuc, _base=new(DummyNuclideBase))
+    return new(FileLib, path=path, neutronVelocity=uf("velocity", POOL.index(name)) if not NATIVE else float(POOL.index(name)), nuclides=[nuc])
+
+
+def read_contract_cls(cls, path):
+    return read_contract(path)
+
+
+# isotxs.readBinary is the module-level alias `readBinary = IsotxsIO.readBinary` of the class method Stream.readBinary:
+# the engine replaces the function behind the alias (second entry), the native run the alias itself (first entry)
+READ_STUBS = {"armi.nuclearDataIO.cccc.isotxs:readBinary": "read_contract",
+              "armi.nuclearDataIO.cccc.cccc:Stream.readBinary": "read_contract_cls"}
+
+
+def merge_directory_case(directory, mask, w, have=0):
+    names = [POOL[i] for i in range(len(POOL)) if (mask // (2 ** i)) % 2 == 1]
+    GlobStandIn.listing = names
+    known = [directory + "/" + POOL[have - 1]] if have else []
+    lib = new(TargetLib, merged=[], isotxsMetadata=new(FileMeta, fileNames=known))
+    velocities = xsl.mergeXSLibrariesInWorkingDirectory(lib, xsLibrarySuffix=WANTED[w], alternateDirectory=directory)
+    want = [n for n in expected_files(WANTED[w], names) if directory + "/" + n not in known]
+    assert sorted(lib.merged) == sorted(directory + "/" + n for n in want), "exactly the chosen files are merged, each once"
+    assert sorted(velocities.keys()) == sorted(n[3:5] for n in want), "one neutron velocity per XS id, under that id"
+    for n in want:
+        v = uf("velocity", POOL.index(n)) if not NATIVE else float(POOL.index(n))
+        assert eq(velocities[n[3:5]], v), "the velocity of the file of that XS id"
+
+
+@lemma(gen={"mask": (0, 63), "w": (1, 2)}, stubs=READ_STUBS, overrides={"armi.nuclearDataIO.xsLibraries:glob": "GlobStandIn"})
+def directory_merge_reads_one_file_per_xs_id_also_when_plain_and_suffixed_files_exist(mask: int, w: int):
+    """mergeXSLibrariesInWorkingDirectory (stand-ins: glob, isotxs.readBinary, the target library) for EVERY subset of
+    the six library names ISOAA, ISOAB, ISOBA, ISOAA-n2, ISOBA-n2, ISOAB-n1 and the suffixes '-n2', '-n1': one file per
+    XS id is merged.  REFUTED whenever the directory holds ISOxx and ISOxx<suffix>: both are read and merged (on the
+    real libraries the second merge then fails with AttributeError 'cross sections overlap')."""
+    mask = choose(mask, 0, 63)
+    w = choose(w, 1, 2)
+    merge_directory_case("/work/run1", mask, w)
+
+
+@lemma(gen={"mask": (1, 7)}, stubs=READ_STUBS, overrides={"armi.nuclearDataIO.xsLibraries:glob": "GlobStandIn"})
+def xs_id_of_a_file_does_not_depend_on_the_directory_name(mask: int):
+    """the same for the plain files ISOAA, ISOAB, ISOBA (every non-empty subset) in a working directory called
+    /work/ISOLDE-study.  REFUTED: the XS id is taken with re.search('ISO([A-Z0-9a-z]{2})') from the whole PATH, so
+    every file gets the id 'LD' of the directory: one velocity entry instead of one per library (and, on the real
+    code, GAMISO / PMATRX / dummy-nuclide file names built from the wrong id)."""
+    mask = choose(mask, 1, 7)
+    merge_directory_case("/work/ISOLDE-study", mask, 0)
